@@ -5,6 +5,7 @@ import (
 	"fmt"
 	"os"
 	"strings"
+	"time"
 
 	lisp "github.com/jig/lisp"
 	"github.com/jig/lisp/debuggertypes"
@@ -109,6 +110,53 @@ func runC18(tier string, seed uint64, rep *Report) {
 			}
 			if line != ref && !strings.HasPrefix(ref, "HANG") {
 				rep.Violate(idx, fmt.Sprintf("with the stepper script %v the program gives %q, without a stepper %q", sc, line, ref), Show(prog))
+			}
+		}
+	}
+	// ---- evaluation under a DEADLINE with a stepper installed: the try form's time budget (body, then handler and finally)
+	// must be the same, so the same clauses run and the same value comes out
+	for _, src := range []string{
+		"(try (sleep 100000) (catch e (do (trace! :handler) :caught)) (finally (trace! :finally)))",
+		"(try (try (sleep 100000) (finally (trace! :inner))) (catch e :c) (finally (trace! :outer)))",
+		"(do (trace! 1) (let [x 2] (try (do (trace! x) (sleep 100000)) (catch e (list :caught x)))))",
+	} {
+		run := func(cmds []int, install bool, d time.Duration) string {
+			w, _ := NewWorld()
+			lisp.ResetStepperForVerif()
+			i := 0
+			if install {
+				lisp.Stepper = func(a types.MalType, ns types.EnvType) debuggertypes.Command {
+					c := 0
+					if i < len(cmds) {
+						c = cmds[i]
+					}
+					i++
+					return []debuggertypes.Command{debuggertypes.NoOp, debuggertypes.Next, debuggertypes.In, debuggertypes.Out}[c]
+				}
+			}
+			saved := os.Stdout
+			devnull, _ := os.OpenFile(os.DevNull, os.O_WRONLY, 0)
+			os.Stdout = devnull
+			ctx, cancel := context.WithTimeout(context.Background(), d)
+			o := w.EvalText(ctx, src)
+			cancel()
+			os.Stdout = saved
+			devnull.Close()
+			lisp.Stepper = nil
+			return outcomeLine(o) + "| " + EncS(types.List{Val: w.TraceSnapshot()})
+		}
+		for _, sc := range [][]int{{}, {2, 2, 2, 2, 2, 2, 2, 2, 2, 2, 2, 2}, {0, 2, 0, 2}} {
+			d := 600 * time.Millisecond
+			ref, got := run(nil, false, d), run(sc, true, d)
+			if ref != got {
+				// the handler gets a fifth of what is left: on a loaded machine that can be too short; verdict on a second pair of runs, 4 s
+				rep.Histogram["deadline-retried"]++
+				d = 4 * time.Second
+				ref, got = run(nil, false, d), run(sc, true, d)
+			}
+			idx := rep.Add("P n", "V n | l 0 ", fmt.Sprintf("stepper script %v, deadline %v: %s", sc, d, src), true, "deadline-with-stepper")
+			if ref != got {
+				rep.Violate(idx, fmt.Sprintf("under a %v deadline the program gives %q with the stepper script %v and %q without a stepper", d, got, sc, ref), src)
 			}
 		}
 	}
